@@ -306,7 +306,7 @@ func (c *Ctx) iteratorRule(rule, fnName, elemCallee, countCallee string) {
 			if !rc.CanReach(cbCall.Block(), ret.Block()) {
 				continue
 			}
-			dd := c.ReachOf(ret)
+			dd := core.Restrict(c.ReachOf(ret), c.ReachOf(cbCall)) // only the ways that went through the callback (a shared final return also serves "nothing to iterate")
 			stop := c.M(true, func(t *core.Term) bool { return t.V == cbCall.(ssa.Value) })
 			done := c.M(false, func(t *core.Term) bool { return t.Kind == "binop" && t.Name == "<" && t.Args[0].V == ssa.Value(idx) })
 			r.Check(rule, sprintf("%s:return%d:exit", key, i+1), c.InstrPos(ret), dd.Implies(stop, done), "iteration can end before the last field without the callback asking for it; reach: "+dd.Describe(c.O))
